@@ -24,6 +24,7 @@ import (
 	"math/big"
 	"reflect"
 	"sort"
+	"strconv"
 	"strings"
 	"sync"
 	"sync/atomic"
@@ -674,7 +675,7 @@ func (blockID *BlockID) Equal(other BlockID) bool {
 
 // Key returns a machine-readable string representation of the BlockID
 func (blockID *BlockID) Key() string {
-	return string(blockID.Hash.String() + blockID.PartsHeader.Hash.String())
+	return string(blockID.Hash.String() + blockID.PartsHeader.Hash.String() + strconv.FormatUint(uint64(blockID.PartsHeader.Total), 10))
 }
 
 // String returns the first 12 characters of hex string representation of the BlockID
